@@ -62,7 +62,7 @@ def lean_obligations(pid, thorough=False):
     module = "Chiritori.Props." + pid
     res = {"module": module, "theorems": theorems, "unproved_full_statements": entry.get("unproved", []),
            "obligations": len(theorems), "discharged": 0, "failures": [], "axioms": {}}
-    extra_mods = sorted({"Chiritori.Props." + t.split(".")[2] for t in theorems if t.startswith("Chiritori.Props.")} - {module})
+    extra_mods = sorted({"Chiritori.Props." + t.split(".")[2] for t in theorems if t.startswith("Chiritori.Props.")} | set(entry.get("modules", [])) - {module})
     rc, out = build_lean([module, "chiritori_driver"] + extra_mods)
     if rc != 0:
         res["failures"].append({"theorem": "*", "why": "lake build failed", "log": out[-3000:]})
@@ -101,10 +101,10 @@ def lean_obligations(pid, thorough=False):
         else:
             res["discharged"] += 1
     if thorough and not res["failures"]:
-        rc, out = sh(["lake", "env", "leanchecker", module], cwd=LEAN)
+        rc, out = sh(["lake", "env", "leanchecker", module] + extra_mods, cwd=LEAN)
         res["leanchecker_rc"] = rc
         if rc != 0:
-            res["failures"].append({"theorem": "*", "why": "leanchecker rejected " + module, "log": out[-2000:]})
+            res["failures"].append({"theorem": "*", "why": "leanchecker rejected " + " ".join([module] + extra_mods), "log": out[-2000:]})
             res["discharged"] = 0
     return res
 
